@@ -43,6 +43,7 @@ type FuncSpec struct {
 	Synchronous []string // property ids: the body must not spawn, send on channels or defer
 	IsSync     bool
 	Recovers   bool // a deferred handler: calls recover() and turns a panic into results
+	NoOverflow []string // property ids: integer arithmetic and narrowing conversions must not wrap
 	NoPanic    []string // property ids for implicit-panic obligations
 	HasNoPanic bool
 	Floor      int // minimal number of obligations expected
@@ -105,7 +106,7 @@ var knownKeywords = map[string]bool{
 	"func": true, "iface": true, "ghost": true, "chaninv": true, "smtfun": true, "spec": true, "axiom": true, "lemma": true,
 	"requires": true, "ensures": true, "maintains": true, "modifies": true, "pure": true, "pure_const": true, "inline": true, "let": true, "loop": true,
 	"panics_iff": true, "ensures_on_panic": true, "replay": true, "nopanic": true, "synchronous": true, "params": true, "results": true,
-	"trusted": true, "floor": true, "callee": true, "use": true, "extern": true, "decreases": true, "recovers": true, "may_panic": true,
+	"trusted": true, "floor": true, "callee": true, "use": true, "extern": true, "decreases": true, "recovers": true, "may_panic": true, "nooverflow": true,
 }
 
 func parsePropsLabel(s string) (props []string, label string) {
@@ -298,7 +299,7 @@ func (sf *SpecFile) load(path string, extern bool) error {
 			if cur == nil {
 				return fail(l, "clause outside a func block: %q", t)
 			}
-			if (first == "pure" || first == "pure_const" || first == "trusted" || first == "inline" || strings.HasPrefix(first, "nopanic") || strings.HasPrefix(first, "synchronous")) && rest != "" {
+			if (first == "pure" || first == "pure_const" || first == "trusted" || first == "inline" || strings.HasPrefix(first, "nopanic") || strings.HasPrefix(first, "nooverflow") || strings.HasPrefix(first, "synchronous")) && rest != "" {
 				return fail(l, "unexpected text after %s: %q", first, rest)
 			}
 			switch {
@@ -343,6 +344,9 @@ func (sf *SpecFile) load(path string, extern bool) error {
 				props, _ := parsePropsLabel(strings.TrimPrefix(first, "synchronous"))
 				cur.Synchronous = append(cur.Synchronous, props...)
 				cur.IsSync = true
+			case strings.HasPrefix(first, "nooverflow"):
+				props, _ := parsePropsLabel(strings.TrimPrefix(first, "nooverflow"))
+				cur.NoOverflow = append(cur.NoOverflow, props...)
 			case strings.HasPrefix(first, "nopanic"):
 				props, _ := parsePropsLabel(strings.TrimPrefix(first, "nopanic"))
 				cur.NoPanic = append(cur.NoPanic, props...)
@@ -455,6 +459,12 @@ func (sf *SpecFile) load(path string, extern bool) error {
 			}
 		}
 		for _, p := range fs.Synchronous {
+			if !seen[p] {
+				seen[p] = true
+				fs.Props = append(fs.Props, p)
+			}
+		}
+		for _, p := range fs.NoOverflow {
 			if !seen[p] {
 				seen[p] = true
 				fs.Props = append(fs.Props, p)
